@@ -31,12 +31,13 @@ _TOOL = 3
 class FaultAtEvent:
     """Raise OSError(EIO) at the j-th file-system event (reads included) seen by the hook."""
 
-    def __init__(self, j, err=errno.EIO, kinds=None):
+    def __init__(self, j, err=errno.EIO, kinds=None, exc=None):
         self.j = j
         self.n = 0
         self.err = err
         self.kinds = kinds
         self.fired = None
+        self.exc = exc  # raise this exception class instead of OSError(err)
 
     def __call__(self, rec):
         if self.kinds is not None and rec[0] not in self.kinds:
@@ -44,6 +45,8 @@ class FaultAtEvent:
         self.n += 1
         if self.n == self.j:
             self.fired = rec
+            if self.exc is not None:
+                raise self.exc("[injected]")
             raise OSError(self.err, os.strerror(self.err) + " [injected]", rec[1])
 
 
